@@ -22,6 +22,9 @@ pub enum Case {
     /// grants: true = one step of the interrupt handler, false = one step of the accept loop
     Schedule(Vec<bool>),
     Sessions(SessionCase),
+    /// part 3: `howl`'s wait for the in-flight sessions, with session completions injected at every point where the
+    /// waiting future touches its waker. `sessions` 1–4; `script[k]` = how many sessions finish at the k-th opportunity
+    Drain { sessions: u8, script: Vec<u8> },
 }
 
 #[derive(Debug, Clone, Serialize, Deserialize)]
@@ -37,6 +40,11 @@ pub struct SessionCase {
     /// bit i set: the handler of connection i panics (inside its future, after it was released) instead of answering
     #[serde(default)]
     pub panic_mask: u8,
+    /// the in-flight sessions are WebSocket sessions (1–3 of them), the server's keep-alive timeout is 1 s and the
+    /// harness lets 1.7 s pass after the interrupt before it releases them: `howl` has to wait for sessions that
+    /// outlive every HTTP time limit
+    #[serde(default)]
+    pub ws_linger: bool,
 }
 
 // ---------------------------------------------------------------- part 1: controller
@@ -54,6 +62,9 @@ struct St {
     seen_at_poll_start: usize,
     log: Vec<&'static str>,
     active: bool,
+    /// the controller asks the parked accept loop for another poll although no wake arrived (a new connection, or an
+    /// executor that polls spuriously — both legitimate)
+    spurious: bool,
 }
 #[derive(Default)]
 struct Ctl {
@@ -114,13 +125,23 @@ fn ctl() -> &'static Arc<Ctl> {
     })
 }
 
+/// Every poll gets a waker of its own; only a wake of the waker handed to the *latest* poll counts ("only the Waker
+/// from the most recent call should be scheduled to receive a wakeup": a future that keeps an older one wakes a task
+/// that no longer drives it).
 struct CountWaker(AtomicUsize);
-impl Wake for CountWaker {
+struct GenWaker {
+    gen: usize,
+    current: Arc<AtomicUsize>,
+    hits: Arc<CountWaker>,
+}
+impl Wake for GenWaker {
     fn wake(self: Arc<Self>) {
-        self.0.fetch_add(1, Ordering::SeqCst);
+        self.wake_by_ref()
     }
     fn wake_by_ref(self: &Arc<Self>) {
-        self.0.fetch_add(1, Ordering::SeqCst);
+        if self.gen == self.current.load(Ordering::SeqCst) {
+            self.hits.0.fetch_add(1, Ordering::SeqCst);
+        }
     }
 }
 
@@ -159,9 +180,11 @@ pub fn run_schedule(schedule: &[bool]) -> SchedOutcome {
     let pt = {
         let (ctl, wk, stop) = (ctl.clone(), wk.clone(), stop.clone());
         std::thread::spawn(move || {
-            let waker = Waker::from(wk.clone());
-            let mut cx = Context::from_waker(&waker);
+            let current = Arc::new(AtomicUsize::new(0));
             loop {
+                let gen = current.fetch_add(1, Ordering::SeqCst) + 1;
+                let waker = Waker::from(Arc::new(GenWaker { gen, current: current.clone(), hits: wk.clone() }));
+                let mut cx = Context::from_waker(&waker);
                 {
                     let mut st = ctl.m.lock().unwrap();
                     st.seen_at_poll_start = wk.0.load(Ordering::SeqCst);
@@ -191,6 +214,14 @@ pub fn run_schedule(schedule: &[bool]) -> SchedOutcome {
                             if stop.load(Ordering::SeqCst) {
                                 return;
                             }
+                            {
+                                let mut st = ctl.m.lock().unwrap();
+                                if st.spurious {
+                                    st.spurious = false;
+                                    st.log.push("re-poll without a wake");
+                                    break;
+                                }
+                            }
                             std::thread::yield_now();
                         }
                     }
@@ -208,7 +239,13 @@ pub fn run_schedule(schedule: &[bool]) -> SchedOutcome {
         let mut st = ctl.m.lock().unwrap();
         loop {
             let at = if h { st.waiting_h.is_some() } else { st.waiting_p.is_some() };
-            let gone = if h { st.h_done } else { st.p_exited || (st.p_parked && wk.0.load(Ordering::SeqCst) == st.seen_at_poll_start) };
+            let gone = if h { st.h_done } else { st.p_exited };
+            if !h && !at && !gone && st.p_parked && !st.spurious && wk.0.load(Ordering::SeqCst) == st.seen_at_poll_start {
+                // a step of the accept loop is granted while it is parked and not woken: it is polled again anyway
+                st.spurious = true;
+                st.p_parked = false;
+                ctl.cv.notify_all();
+            }
             if at {
                 if h {
                     st.grant_h += 1
@@ -326,6 +363,166 @@ fn render(s: &[bool]) -> String {
     s.iter().map(|b| if *b { 'H' } else { 'P' }).collect()
 }
 
+// ---------------------------------------------------------------- part 3: the wait for in-flight sessions
+
+/// What a wait for n sessions may do with its waker is not prescribed (the code under test re-wakes itself on every
+/// poll; an implementation that stores the waker and lets the last session wake it is as good). So the harness is an
+/// executor that owns every event: it polls only when the latest waker was woken (or for the first time), and a
+/// session can finish *at* each operation of the future on its waker (`clone` = the moment it publishes one,
+/// `wake`/`wake_by_ref`), between two polls, and while the executor is idle. Verdict: Ready exactly when no session
+/// is left; idle with no session left and no wake pending = `howl` never returns.
+mod drain {
+    use ohkami::__verif_sync__::{VerifSession, VerifWaitGroup};
+    use std::cell::RefCell;
+    use std::future::Future;
+    use std::task::{Context, Poll, RawWaker, RawWakerVTable, Waker};
+
+    #[derive(Default)]
+    struct State {
+        sessions: Vec<VerifSession>,
+        script: Vec<u8>,
+        next: usize,
+        current_gen: usize,
+        hits: u64,
+        log: Vec<String>,
+    }
+    thread_local! {
+        static ST: RefCell<State> = RefCell::new(State::default());
+    }
+
+    /// an opportunity for sessions to finish; never holds the borrow while a session handle is dropped (its Drop may
+    /// call back into a waker)
+    fn opportunity(what: &str) {
+        let n = ST.with(|st| {
+            let mut st = st.borrow_mut();
+            let k = st.next;
+            st.next += 1;
+            let n = st.script.get(k).copied().unwrap_or(0) as usize;
+            let n = n.min(st.sessions.len());
+            if n > 0 {
+                st.log.push(format!("{what}: {n} session(s) finish"));
+            }
+            n
+        });
+        for _ in 0..n {
+            let s = ST.with(|st| st.borrow_mut().sessions.pop());
+            if let Some(s) = s {
+                s.done()
+            }
+        }
+    }
+
+    fn raw(gen: usize) -> RawWaker {
+        RawWaker::new(gen as *const (), &VTABLE)
+    }
+    fn hit(gen: usize) {
+        ST.with(|st| {
+            let mut st = st.borrow_mut();
+            if st.current_gen == gen {
+                st.hits += 1
+            }
+        })
+    }
+    static VTABLE: RawWakerVTable = RawWakerVTable::new(
+        |d| {
+            opportunity("waker cloned");
+            raw(d as usize)
+        },
+        |d| {
+            hit(d as usize);
+            opportunity("waker woken");
+        },
+        |d| {
+            hit(d as usize);
+            opportunity("waker woken by ref");
+        },
+        |_| {},
+    );
+
+    pub enum Outcome {
+        Ok { polls: u32 },
+        ReadyWithSessionsLeft { left: usize, log: Vec<String> },
+        NeverReturns { polls: u32, log: Vec<String> },
+        Spins,
+    }
+
+    pub fn run(sessions: usize, script: &[u8]) -> Outcome {
+        let wg = VerifWaitGroup::new();
+        let handles: Vec<VerifSession> = (0..sessions).map(|_| wg.add()).collect();
+        ST.with(|st| *st.borrow_mut() = State { sessions: handles, script: script.to_vec(), ..Default::default() });
+        opportunity("before the first poll");
+        let mut fut = Box::pin(wg.wait());
+        let mut polls = 0u32;
+        let left = || ST.with(|st| st.borrow().sessions.len());
+        let take_log = || ST.with(|st| std::mem::take(&mut st.borrow_mut().log));
+        loop {
+            polls += 1;
+            if polls > 5000 {
+                return Outcome::Spins;
+            }
+            let gen = ST.with(|st| {
+                let mut st = st.borrow_mut();
+                st.current_gen += 1;
+                st.hits = 0;
+                st.current_gen
+            });
+            let waker = unsafe { Waker::from_raw(raw(gen)) };
+            let mut cx = Context::from_waker(&waker);
+            match fut.as_mut().poll(&mut cx) {
+                Poll::Ready(()) => {
+                    let l = left();
+                    return if l == 0 { Outcome::Ok { polls } } else { Outcome::ReadyWithSessionsLeft { left: l, log: take_log() } };
+                }
+                Poll::Pending => {
+                    opportunity("between two polls");
+                    // once the script is used up the remaining sessions finish here, one per round
+                    let exhausted = ST.with(|st| {
+                        let st = st.borrow();
+                        st.next >= st.script.len()
+                    });
+                    if exhausted {
+                        if let Some(s) = ST.with(|st| st.borrow_mut().sessions.pop()) {
+                            ST.with(|st| st.borrow_mut().log.push("after the script: 1 session finishes".into()));
+                            s.done()
+                        }
+                    }
+                    let woken = ST.with(|st| st.borrow().hits > 0);
+                    if woken {
+                        continue;
+                    }
+                    // idle: nothing will poll the future again unless a wake arrives; sessions go on finishing
+                    loop {
+                        let s = ST.with(|st| st.borrow_mut().sessions.pop());
+                        match s {
+                            Some(s) => {
+                                ST.with(|st| st.borrow_mut().log.push("while the executor is idle: 1 session finishes".into()));
+                                s.done();
+                                if ST.with(|st| st.borrow().hits > 0) {
+                                    break;
+                                }
+                            }
+                            None => break,
+                        }
+                    }
+                    if ST.with(|st| st.borrow().hits > 0) {
+                        continue;
+                    }
+                    return Outcome::NeverReturns { polls, log: take_log() };
+                }
+            }
+        }
+    }
+}
+
+fn check_drain(sessions: usize, script: &[u8], obs: &mut Obs) {
+    match drain::run(sessions, script) {
+        drain::Outcome::Ok { polls } => obs.evals += polls as u64,
+        drain::Outcome::ReadyWithSessionsLeft { left, log } => obs.fail("wait-returned-with-sessions-in-flight", format!("{sessions} sessions, script {script:?}: the wait became Ready while {left} session(s) had not finished; events {log:?}")),
+        drain::Outcome::NeverReturns { polls, log } => obs.fail("wait-never-returns", format!("{sessions} sessions, script {script:?}: every session has finished, the waiting future is Pending after {polls} poll(s) and no wake of its latest waker is pending — `howl` never returns; events {log:?}")),
+        drain::Outcome::Spins => obs.fail("wait-never-returns", format!("{sessions} sessions, script {script:?}: still Pending after 5000 polls although every session has finished")),
+    }
+}
+
 // ---------------------------------------------------------------- part 2: child process
 
 /// `ohv c18-child <port>`: a real server. Commands on stdin: `release <id>`. Events on stdout.
@@ -386,7 +583,20 @@ pub fn child_main(port: u16) -> ! {
         async fn whoami() -> String {
             format!("pid={}", std::process::id())
         }
-        let o = Ohkami::new(("/block/:id".GET(block), "/boom/:id".GET(boom), "/whoami".GET(whoami)));
+        async fn ws(id: u32, ctx: ohkami::ws::WebSocketContext<'_>) -> ohkami::ws::WebSocket {
+            ctx.upgrade(move |mut conn| async move {
+                say(&format!("start {id}"));
+                loop {
+                    if RELEASED.get().unwrap().lock().unwrap().contains(&id) {
+                        break;
+                    }
+                    tokio::time::sleep(Duration::from_millis(1)).await;
+                }
+                let _ = conn.send(format!("done {id}")).await;
+                say(&format!("handled {id}"));
+            })
+        }
+        let o = Ohkami::new(("/block/:id".GET(block), "/boom/:id".GET(boom), "/ws/:id".GET(ws), "/whoami".GET(whoami)));
         // `listening` is printed before the bind happens inside howl; the parent retries its connects
         say("listening");
         o.howl(("127.0.0.1", port)).await;
@@ -441,14 +651,17 @@ static PORT_SEQ: AtomicUsize = AtomicUsize::new(0);
 
 fn run_sessions(sc: &SessionCase, obs: &mut Obs) {
     use std::io::{BufRead, Read, Write};
-    let before = (sc.before % 7) as usize;
+    let ws = sc.ws_linger;
+    let before = if ws { 1 + (sc.before % 3) as usize } else { (sc.before % 7) as usize };
     let after = (sc.after % 4) as usize;
+    let panic_mask = if ws { 0 } else { sc.panic_mask };
     let mut attempt = 0;
     let (mut child, port) = loop {
         attempt += 1;
         let port = 21000 + ((std::process::id() as usize * 131 + PORT_SEQ.fetch_add(1, Ordering::SeqCst) * 17) % 30000) as u16;
         let mut proc = std::process::Command::new(std::env::current_exe().unwrap())
             .args(["c18-child", &port.to_string()])
+            .env("OHKAMI_KEEPALIVE_TIMEOUT", if ws { "1" } else { "30" })
             .stdin(std::process::Stdio::piped())
             .stdout(std::process::Stdio::piped())
             .stderr(std::process::Stdio::null())
@@ -525,8 +738,12 @@ fn run_sessions(sc: &SessionCase, obs: &mut Obs) {
             }
         };
         let _ = s.set_read_timeout(Some(Duration::from_secs(10)));
-        let route = if sc.panic_mask & (1 << id) != 0 { "boom" } else { "block" };
-        let _ = s.write_all(format!("GET /{route}/{id} HTTP/1.1\r\nHost: t\r\n\r\n").as_bytes());
+        let route = if panic_mask & (1 << id) != 0 { "boom" } else { "block" };
+        if ws {
+            let _ = s.write_all(format!("GET /ws/{id} HTTP/1.1\r\nHost: t\r\nConnection: Upgrade\r\nUpgrade: websocket\r\nSec-WebSocket-Version: 13\r\nSec-WebSocket-Key: dGhlIHNhbXBsZSBub25jZQ==\r\n\r\n").as_bytes());
+        } else {
+            let _ = s.write_all(format!("GET /{route}/{id} HTTP/1.1\r\nHost: t\r\n\r\n").as_bytes());
+        }
         if !child.wait_line(&format!("start {id}"), Duration::from_secs(10)) {
             obs.fail("HARNESS-BUG c18-handler-did-not-start", format!("handler {id} did not start"));
             finish(&mut child);
@@ -535,11 +752,26 @@ fn run_sessions(sc: &SessionCase, obs: &mut Obs) {
         conns.push(s);
     }
     let order = crate::harness::app::permutation(before, sc.release_seed);
-    let early = (sc.release_early as usize).min(before);
+    let early = if ws { 0 } else { (sc.release_early as usize).min(before) };
     let mut responses: Vec<Option<Vec<u8>>> = vec![None; before];
     let mut read_response = |conns: &mut Vec<std::net::TcpStream>, id: usize| -> Option<Vec<u8>> {
         let mut got = Vec::new();
         let mut buf = [0u8; 4096];
+        if ws {
+            // 101 head, then one unmasked text frame (0x81, length < 126, payload)
+            loop {
+                if let Some(h) = got.windows(4).position(|w| w == b"\r\n\r\n") {
+                    let f = &got[h + 4..];
+                    if f.len() >= 2 && f.len() >= 2 + (f[1] & 0x7f) as usize {
+                        return Some(got);
+                    }
+                }
+                match conns[id].read(&mut buf) {
+                    Ok(0) | Err(_) => return if got.is_empty() { None } else { Some(got) },
+                    Ok(n) => got.extend_from_slice(&buf[..n]),
+                }
+            }
+        }
         loop {
             match crate::oracle::http::parse_response(&got, false) {
                 Ok(r) if r.consumed <= got.len() => return Some(got),
@@ -566,26 +798,43 @@ fn run_sessions(sc: &SessionCase, obs: &mut Obs) {
         finish(&mut child);
         return;
     }
-    // new connections are refused now
+    // new connections are refused now: the listening socket is closed before L1. (The process is certainly still
+    // there when sessions are in flight; without any, it may be gone and the port may belong to someone else.)
     for k in 0..after {
         match std::net::TcpStream::connect(("127.0.0.1", port)) {
             Err(_) => {}
             Ok(mut s) => {
-                // accepted by the kernel? then it must at least never be served
-                let _ = s.set_read_timeout(Some(Duration::from_millis(300)));
-                let _ = s.write_all(b"GET /block/99 HTTP/1.1\r\nHost: t\r\n\r\n");
-                let mut b = [0u8; 16];
-                if matches!(s.read(&mut b), Ok(n) if n > 0) {
+                // accepted by the kernel: by whom? `/whoami` is answered at once by a serving process
+                let _ = s.set_read_timeout(Some(Duration::from_millis(400)));
+                let _ = s.write_all(b"GET /whoami HTTP/1.1\r\nHost: t\r\nConnection: close\r\n\r\n");
+                let mut got = Vec::new();
+                let mut b = [0u8; 256];
+                while let Ok(n) = s.read(&mut b) {
+                    if n == 0 {
+                        break;
+                    }
+                    got.extend_from_slice(&b[..n]);
+                }
+                let text = String::from_utf8_lossy(&got);
+                if text.contains(&format!("pid={}", child.proc.id())) {
                     obs.fail("served-after-shutdown-began", format!("connection attempt {k} after the accept loop left was served"));
+                } else if got.is_empty() && before - early > 0 && matches!(child.proc.try_wait(), Ok(None)) {
+                    // nobody answers, our server is alive and draining: its listening socket still takes connections
+                    obs.fail("listening-socket-open-after-interrupt", format!("connection attempt {k} after the accept loop left was accepted (and left hanging) although the server had stopped accepting; {} session(s) in flight", before - early));
                 }
             }
         }
     }
     // howl must not have returned while sessions are in flight
+    if ws {
+        // … however long they last: past the keep-alive timeout (1 s here) no HTTP session could still be open,
+        // a WebSocket session is
+        std::thread::sleep(Duration::from_millis(1700));
+    }
     child.drain();
     let in_flight = before - early;
     if in_flight > 0 && child.seen.iter().any(|l| l == "howl returned") {
-        obs.fail("howl-returned-with-sessions-in-flight", format!("`howl` returned while {in_flight} session(s) were still blocked in their handlers (events: {:?})", child.seen));
+        obs.fail(if ws { "howl-returned-with-websocket-sessions-in-flight" } else { "howl-returned-with-sessions-in-flight" }, format!("`howl` returned while {in_flight} session(s) were still blocked in their handlers (events: {:?})", child.seen));
     }
     // release the rest in the generated order; every in-flight request must get its complete response
     for &id in &order[early..] {
@@ -594,10 +843,20 @@ fn run_sessions(sc: &SessionCase, obs: &mut Obs) {
         responses[id] = read_response(&mut conns, id);
     }
     for (id, r) in responses.iter().enumerate() {
-        if sc.panic_mask & (1 << id) != 0 {
+        if panic_mask & (1 << id) != 0 {
             continue; // a session whose handler panicked owes no response; it must only not keep `howl` from returning
         }
-        let ok = r.as_ref().and_then(|b| crate::oracle::http::parse_response(b, false).ok()).map_or(false, |p| p.status == 200 && p.body == format!("done {id}").as_bytes());
+        let ok = if ws {
+            r.as_ref().map_or(false, |b| {
+                let want = format!("done {id}");
+                b.starts_with(b"HTTP/1.1 101") && b.windows(4).position(|w| w == b"\r\n\r\n").map_or(false, |h| {
+                    let f = &b[h + 4..];
+                    f.len() >= 2 + want.len() && f[0] == 0x81 && f[1] as usize == want.len() && &f[2..2 + want.len()] == want.as_bytes()
+                })
+            })
+        } else {
+            r.as_ref().and_then(|b| crate::oracle::http::parse_response(b, false).ok()).map_or(false, |p| p.status == 200 && p.body == format!("done {id}").as_bytes())
+        };
         if !ok {
             obs.fail("in-flight-session-cut-off", format!("session {id} was in flight at the interrupt but did not receive its complete response (got {:?}; events {:?})", r.as_ref().map(|b| String::from_utf8_lossy(b).into_owned()), child.seen));
         }
@@ -608,7 +867,8 @@ fn run_sessions(sc: &SessionCase, obs: &mut Obs) {
     // were in flight have finished" — a session finishes when its connection ends. Check before closing:
     child.drain();
     // (sessions whose handler panicked have ended on the server side; their client sockets do not count)
-    let still_open = (0..before).filter(|id| sc.panic_mask & (1 << id) == 0).count();
+    // (a WebSocket session ends when its handler returns: after the message nothing is open any more)
+    let still_open = if ws { 0 } else { (0..before).filter(|id| panic_mask & (1 << id) == 0).count() };
     if still_open > 0 && child.seen.iter().any(|l| l == "howl returned") {
         // keep-alive sessions are still open: returning now is early
         obs.fail("howl-returned-before-sessions-finished", format!("`howl` returned although {} keep-alive session(s) were still open (events: {:?})", still_open, child.seen));
@@ -639,10 +899,11 @@ fn run_sessions(sc: &SessionCase, obs: &mut Obs) {
 impl Property for C18 {
     type Case = Case;
     const ID: &'static str = "C18";
-    const RULE: &'static str = "enumerated: every interleaving of the 4 steps of the real interrupt closure (H0 store flag, H1 take waker, H2 wake, H3 done — run on ctrlc's thread after a real raise(SIGINT)) with up to 9 steps of the accept loop (P0 poll begins, P1 accept returned Pending, P2 between flag load and waker publish; three polls) under a controller that grants one step at a time (hook H5) — 715 schedules, complete for that bound; generated: longer schedules (up to 24 grants) and child-process cases (a real howl with n ∈ 0–6 blocked in-flight sessions, real SIGINT, generated release order, 0–3 connection attempts after the accept loop left). Oracle part 1 (no wall clock): at quiescence the loop has exited or a wake was delivered since its last poll began; `parked ∧ flag set ∧ no wake` is the lost interrupt. Oracle part 2: every in-flight request receives its complete response although the process exits as soon as howl returns; howl has not returned while a session is blocked or open; it returns after the last one ended; attempts after the accept loop left are not served. Non-trivial = a schedule with a handler step between P1 and the end of that poll, or n ≥ 2 with a release order different from the accept order; distinct by case.";
+    const RULE: &'static str = "enumerated: every interleaving of the 4 steps of the real interrupt closure (H0 store flag, H1 take waker, H2 wake, H3 done — run on ctrlc's thread after a real raise(SIGINT)) with up to 9 steps of the accept loop (P0 poll begins, P1 accept returned Pending, P2 between flag load and waker publish; three polls) under a controller that grants one step at a time (hook H5) — 715 schedules, complete for that bound; generated: longer schedules (up to 24 grants) and child-process cases (a real howl with n ∈ 0–6 blocked in-flight sessions, real SIGINT, generated release order, 0–3 connection attempts after the accept loop left; some sessions' handlers panic while in flight; a tenth of the cases uses 1–3 WebSocket sessions, a keep-alive timeout of 1 s and lets 1.7 s pass after the interrupt before releasing them). Oracle part 1 (no wall clock): at quiescence the loop has exited or a wake was delivered since its last poll began; `parked ∧ flag set ∧ no wake` is the lost interrupt. Oracle part 2: every in-flight request receives its complete response although the process exits as soon as howl returns; howl has not returned while a session is blocked or open; it returns after the last one ended; attempts after the accept loop left are not served. Non-trivial = a schedule with a handler step between P1 and the end of that poll, or n ≥ 2 with a release order different from the accept order; distinct by case.";
     const ASSUMPTIONS: &'static [&'static str] = &[
         "sequentially consistent interleavings at the granularity of the hook points (the code uses SeqCst throughout)",
         "only the tokio runtime; the glommio variant (mutex-based) is not exercised",
+        "WebSocket sessions (feature ws) are sessions in the sense of the statement: howl waits for them although they outlive the keep-alive timeout",
         "part 2 uses generous real-time limits (10–12 s against milliseconds of normal latency) only to decide that something never happens",
     ];
 
@@ -672,7 +933,8 @@ impl Property for C18 {
     fn strategy(&self, _tier: Tier) -> BoxedStrategy<Case> {
         prop_oneof![
             5 => vec(prop::bool::weighted(0.3), 4..=24).prop_map(Case::Schedule),
-            1 => (0u8..7, 0u8..4, any::<u64>(), 0u8..3, prop_oneof![3 => Just(0u8), 2 => any::<u8>()]).prop_map(|(before, after, release_seed, release_early, panic_mask)| Case::Sessions(SessionCase { before, after, release_seed, release_early, panic_mask })),
+            3 => (0u8..4, vec(prop_oneof![3 => Just(0u8), 2 => Just(1u8), 1 => 2u8..5], 0..=14)).prop_map(|(sessions, script)| Case::Drain { sessions, script }),
+            1 => (0u8..7, 0u8..4, any::<u64>(), 0u8..3, prop_oneof![3 => Just(0u8), 2 => any::<u8>()], prop::bool::weighted(0.1)).prop_map(|(before, after, release_seed, release_early, panic_mask, ws_linger)| Case::Sessions(SessionCase { before, after, release_seed, release_early, panic_mask, ws_linger })),
         ]
         .boxed()
     }
@@ -689,9 +951,15 @@ impl Property for C18 {
                     SchedOutcome::Stuck(why) => obs.fail("HARNESS-BUG c18-controller-stuck", format!("schedule {}: {why}", render(s))),
                 }
             }
+            Case::Drain { sessions, script } => {
+                obs.label("drain-wait");
+                let n = 1 + (*sessions % 4) as usize;
+                obs.nontrivial = script.iter().skip(1).any(|x| *x > 0);
+                check_drain(n, script, obs);
+            }
             Case::Sessions(sc) => {
-                obs.label("sessions");
-                let before = (sc.before % 7) as usize;
+                obs.label(if sc.ws_linger { "websocket-sessions" } else { "sessions" });
+                let before = if sc.ws_linger { 1 + (sc.before % 3) as usize } else { (sc.before % 7) as usize };
                 let order = crate::harness::app::permutation(before, sc.release_seed);
                 obs.nontrivial = before >= 2 && order.iter().enumerate().any(|(i, o)| i != *o);
                 run_sessions(sc, obs);
@@ -724,6 +992,28 @@ impl Property for C18 {
                 }
             }
         }
+        // part 3, exhaustively: 1–3 sessions × every script of 7 opportunities in which each session finishes at one of
+        // them (or after the script)
+        let mut drain_n = 0u64;
+        for sessions in 1..=3usize {
+            let slots = 8usize; // 7 opportunities + "after the script"
+            let total = slots.pow(sessions as u32);
+            for code in 0..total {
+                let mut script = vec![0u8; 7];
+                let mut c = code;
+                for _ in 0..sessions {
+                    let at = c % slots;
+                    c /= slots;
+                    if at < 7 {
+                        script[at] += 1
+                    }
+                }
+                drain_n += 1;
+                check_drain(sessions, &script, obs);
+            }
+        }
+        n += drain_n;
+        nontrivial += drain_n;
         if lost > 0 {
             obs.fail("lost-interrupt", format!("{lost} of {n} enumerated schedules lose the interrupt (the accept loop parks for ever although the flag is set); first: {}", first_lost.unwrap()));
         }
@@ -731,7 +1021,7 @@ impl Property for C18 {
             evaluations: n,
             distinct_nontrivial: nontrivial,
             exhaustive: true,
-            note: format!("all {n} interleavings of the 4 handler steps with 9 accept-loop steps (three polls) enumerated completely"),
+            note: format!("all {} interleavings of the 4 handler steps with 9 accept-loop steps (three polls) enumerated completely; plus all {drain_n} placements of the completions of 1–3 sessions over the first 7 waker/poll opportunities of the drain wait", n - drain_n),
             samples: vec![serde_json::json!({"Schedule": render(&all[all.len() / 3])}), serde_json::json!({"Schedule": render(&all[all.len() / 2])})],
         })
     }
